@@ -171,9 +171,10 @@ def slice_de(ctx, rng, n_cases):
 
 def run(ctx):
     out = [slice_topk(ctx, ctx.rng(1), ctx.size(1500, 20000)), slice_de(ctx, ctx.rng(2), ctx.size(400, 5000))]
-    from .. import runs
+    from .. import refine, runs
 
-    out.append(runs.monitor_batch(ctx, "C12", ctx.size(40, 600), force=lambda rng: {"engines": {0: ["sea", "seax", "ga", "adapt", "de", "ded", "shade"]}}))
+    out.append(refine.refine_batch(ctx, ctx.size(100, 1200), pid="C12", name="trace-refinement(Tree.step vs DemeTree.run)"))
+    out.append(runs.monitor_batch(ctx, "C12", ctx.size(150, 2000), force=lambda rng: {"engines": {0: ["sea", "seax", "ga", "adapt", "de", "ded", "shade"]}}))
     return out
 
 
